@@ -23,7 +23,7 @@ from ..ref import dense, gls
 ID = 'C07'
 LEVEL = 'exploration'
 DECIDING = ['tap:least_squares', 'fits_judged', 'metamorphic_pairs_judged', 'corr_fit_judged', 'corr_fit_repeated_calls_judged', 'corr_plateau_fits_judged', 'prior_string_gradients_judged', 'stored_state_monitored',
-            'alias_cases_judged', 'spectator_parameters_judged', 'histories_judged', 'scale_pairs_judged', 'representations_judged', 'chained_fits_judged', 'boundary_cases_judged']
+            'alias_cases_judged', 'spectator_parameters_judged', 'histories_judged', 'scale_pairs_judged', 'representations_judged', 'chained_fits_judged', 'boundary_cases_judged', 'result_interfaces_judged', 'rejections_judged', 'degenerate_cases_judged']
 RULE = ('cases: linear-basis models from {1, x, x^2, sin x, exp(-x), x2, x*x2} with 1-4 parameters, 1-3 data sets sharing parameters, '
         '1-2 abscissa dimensions, data on independent / shared / mixed / nested ensembles (AR noise, common modes, replicas, covariance inputs), '
         'gamma_method with S in {0,1,2,3} before the fit, priors none / list / dict of Obs / dict of strings / mixed on any subset, weights '
@@ -93,7 +93,7 @@ def install_judgement_counters(ctx):
     def family(mech):
         m = re.sub(r'@[a-z-]+', '', mech)
         m = re.sub(r'^(history):\d+', r'\1', m)
-        m = re.sub(r'^(alias|representation|options|boundary|metamorphic):[A-Za-z0-9=.\-]+(?=:|$)', r'\1', m)
+        m = re.sub(r'^(alias|representation|options|boundary|metamorphic|degenerate):[A-Za-z0-9=.\-]+(?=:|$)', r'\1', m)
         m = re.sub(r'^scale:(unit|scaled|small-parameters:[A-Za-z-]+|large-parameters:[A-Za-z_-]+)', 'scale', m)
         return m
     c_close, c_equal, c_require = ctx.close, ctx.equal, ctx.require
@@ -142,8 +142,9 @@ def teardown(ctx):
 
 def plan(tier):
     m = 1 if tier == 'quick' else 8
-    return [('fit', 260 * m), ('corrfit', 72 * m), ('alias', 72 * m), ('history', 54 * m), ('scale', 60 * m), ('representation', 80 * m),
-            ('chain', 54 * m), ('boundary', 56 * m), ('expchisq', 60 * m), ('spectator', 54 * m)]
+    return [('fit', 150 * m), ('corrfit', 72 * m), ('alias', 72 * m), ('history', 54 * m), ('scale', 60 * m), ('representation', 72 * m),
+            ('chain', 54 * m), ('boundary', 56 * m), ('expchisq', 60 * m), ('spectator', 54 * m),
+            ('interface', 60 * m), ('rejection', 72 * m), ('degenerate', 81 * m)]
 
 
 # ------------------------------------------------------------------------------------------
@@ -159,6 +160,16 @@ def lib_func(terms, dim):
             out = out + p[idx] * LIB_BASIS[b](x1, x2)
         return out
     return f
+
+
+def lib_func_star(terms, dim):
+    """The same model written as f(p, x) = g(x, *p) with a fixed number of positional parameters: calling it with too few or too many
+    parameters raises TypeError (not IndexError) - the other branch of the library's count of the parameters."""
+    k = 1 + max(i for i, _ in terms)
+    body = lib_func(terms, dim)
+    src = 'lambda x, %s: body([%s], x)' % (', '.join('a%d' % i for i in range(k)), ', '.join('a%d' % i for i in range(k)))
+    g = eval(src, {'body': body})
+    return lambda p, x: g(x, *p)
 
 
 def lib_selector_func(sets, dim):
@@ -435,6 +446,8 @@ def build_call(prob, pres, opts, Lcanon):
     cache = prob.get('funcs')                   # histories: one function object in several calls with other data / abscissae
 
     def lib_func_(terms, dim_):
+        if opts.get('star_args'):
+            return lib_func_star(terms, dim_)
         if cache is None:
             return lib_func(terms, dim_)
         key = (tuple(terms), dim_)
@@ -1564,9 +1577,338 @@ def run_boundary_case(ctx, idx, rng):
 
 
 
+# ------------------------------------------------------------------------------------------
+# third hardening pass: result interface and printing, rejections, degenerate values, indistinguishable members, coincidences
+def variance_at_window_zero(o):
+    """Squared error of an observable analysed with S = 0 (no autocorrelation, documented convention Gamma(0) / (N - 1)): per ensemble
+    sum delta^2 / (N (N - 1)), plus g^T C g."""
+    sn = snap(o)
+    tot = 0.0
+    ens = {}
+    for n, (idl, d, _) in sn['chains'].items():
+        e = n.split('|')[0]
+        a_, b_ = ens.get(e, (0.0, 0))
+        ens[e] = (a_ + float(np.sum(np.asarray(d) ** 2)), b_ + len(idl))
+    for a_, b_ in ens.values():
+        tot += a_ / (b_ * (b_ - 1.0))
+    for n, (cov, g) in sn['cov'].items():
+        tot += float(np.asarray(g) @ np.atleast_2d(cov) @ np.asarray(g))
+    return tot
+
+
+def run_interface_case(ctx, idx, rng):
+    """Fit_result as a sequence, Fit_result.gamma_method, and the numbers printed by str(result) / repr(result); half of the cases with
+    functions written as g(x, *p) (TypeError branch of the parameter count), some with tol on Levenberg-Marquardt (ignored, announced)."""
+    import re
+    o = hard_options(idx, rng, weights=WEIGHTS[idx % 3], priors=PRIORS[(idx // 3) % 5], method='Levenberg-Marquardt', num_grad=bool((idx // 6) % 3 == 2))
+    o['mode'] = 'shared' if o['weights'] == 'estimated' else str(rng.choice(['indep', 'shared', 'mixed']))
+    o['star_args'] = idx % 2 == 0
+    if o['star_args']:
+        o['nsets'] = 1
+    o['expected_chisquare'] = o['weights'] == 'diag' and o['priors'] == 'none'
+    prob = make_problem(ctx, rng, o)
+    dy = np.array([float(v.dvalue) for v in prob['ys']])
+    Lcanon = supplied_factor(rng, dy) if o['weights'] == 'supplied' else None
+    extra = {'tol': 1e-3} if idx % 4 == 1 else {}
+    if idx % 4 == 3:
+        extra['silent'] = False                          # prints method, message, chisquare/d.o.f., chisquare/expected_chisquare
+    what = 'interface %s/%s star=%s' % (o['weights'], o['priors'], o['star_args'])
+    try:
+        res, sol, info = fit_and_judge(ctx, prob, o, 'interface', what, Lcanon=Lcanon, extra_kw=extra)
+    except TypeError as e:
+        # a TypeError that leaves the library through the user's function would be taken for a harness error
+        ctx.ev()
+        ctx.violation('interface:function-with-positional-parameters-refused', {'message': str(e)[:200], 'star_args': o['star_args']})
+        return
+    if res is None:
+        return
+    k = prob['k']
+    ctx.cell('interface', o['weights'], o['priors'], 'star' if o['star_args'] else 'index', 'tol' if 'tol' in extra else 'plain')
+    # sequence protocol
+    ctx.equal(len(res), k, 'Fit_result:len', what)
+    ctx.require(all(res[i] is res.fit_parameters[i] for i in range(k)) and [id(v) for v in res] == [id(v) for v in res.fit_parameters]
+                and res[-1] is res.fit_parameters[-1], 'Fit_result:indexing', what)
+    # gamma_method on the result = gamma_method on every parameter (S = 0: the error follows from the fluctuations in closed form)
+    for call in (res.gamma_method, res.gm):
+        for v in res.fit_parameters:
+            v._dvalue = -1.0
+        call(S=0)
+        for i, v in enumerate(res.fit_parameters):
+            exp = np.sqrt(variance_at_window_zero(v))
+            ctx.close(v.dvalue, exp, 'Fit_result:gamma_method', '%s p[%d]' % (what, i), rtol=1e-10, atol=1e-300)
+    # printed numbers
+    text = str(res)
+    lines = text.splitlines()
+
+    def printed(label):
+        m = [ln for ln in lines if ln.startswith(label)]
+        return float(m[0].split('=')[1]) if len(m) == 1 else None
+    got = printed('χ²/d.o.f.')
+    if sol['dof'] > 0:
+        ctx.require(got is not None and abs(got - float(res.chisquare_by_dof)) <= 0.51e-6 + 1e-12 * abs(got), 'Fit_result:str:chisquare_by_dof', {'printed': got, 'attribute': float(res.chisquare_by_dof)})
+    got = printed('p-value')
+    if sol['dof'] > 0:
+        ctx.require(got is not None and abs(got - float(res.p_value)) <= 0.51e-4, 'Fit_result:str:p_value', {'printed': got, 'attribute': float(res.p_value)})
+    if o['weights'] != 'diag' and sol['dof'] > 0:
+        got = printed('t²p-value')
+        ctx.require(got is not None and abs(got - float(res.t2_p_value)) <= 0.51e-4, 'Fit_result:str:t2_p_value', {'printed': got, 'attribute': float(res.t2_p_value)})
+    else:
+        ctx.require(printed('t²p-value') is None, 'Fit_result:str:t2_p_value-printed-for-uncorrelated-fit', text)
+    if o['expected_chisquare'] and hasattr(res, 'chisquare_by_expected_chisquare'):
+        got = printed('χ²/χ²exp')
+        ctx.require(got is not None and abs(got - float(res.chisquare_by_expected_chisquare)) <= 0.51e-6 + 1e-12 * abs(got), 'Fit_result:str:chisquare_by_expected_chisquare',
+                    {'printed': got, 'attribute': float(res.chisquare_by_expected_chisquare)})
+    at = lines.index('Fit parameters:') if 'Fit parameters:' in lines else None
+    ok = at is not None and len(lines) - at - 1 == k
+    if ok:
+        for i in range(k):
+            m = re.match(r'^(\d+)\t\s*(\S+)', lines[at + 1 + i])
+            ok &= bool(m) and int(m.group(1)) == i and m.group(2).split('(')[0].lstrip('-')[:1].isdigit()
+            if ok:
+                v = float(m.group(2).split('(')[0])
+                ok &= abs(v - float(res[i].value)) <= max(2.0 * float(res[i].dvalue), 1e-12 * abs(v))      # value(error) keeps about two digits of the error
+    ctx.require(ok, 'Fit_result:str:parameter-lines', text)
+    rp = repr(res)
+    ctx.require(all(('%s: ' % key) in rp for key in ('chisquare', 'dof', 'p_value', 'fit_parameters', 'method')), 'Fit_result:repr', rp[:400])
+    ctx.count('result_interfaces_judged')
+    if info and info['nontriv'] and k >= 2:
+        ctx.nontrivial.add(digest([obs_digest(v) for v in prob['ys']], repr(sorted(o.items(), key=str))))
+
+
+def expect_rejection(ctx, row, exc_types, call, inputs, message=None):
+    """A documented rejection: the call must raise one of exc_types (with the documented message) and leave the inputs as they were."""
+    before = [analysis_digest(v) for v in inputs]
+    try:
+        out = call()
+    except exc_types as e:
+        ok = message is None or message in str(e)
+        ctx.require(ok, 'rejection:%s:other-message' % row, {'message': str(e)[:200], 'expected': message})
+    except Exception as e:
+        ctx.ev()
+        ctx.violation('rejection:%s:other-exception' % row, {'raised': type(e).__name__, 'message': str(e)[:200], 'expected': [t.__name__ for t in exc_types]})
+    else:
+        ctx.ev()
+        ctx.violation('rejection:%s:accepted' % row, {'returned': type(out).__name__})
+    ctx.require(before == [analysis_digest(v) for v in inputs], 'rejection:%s:inputs-changed' % row, None)
+    ctx.count('rejections_judged')
+    ctx.count('judged:rejection:' + row)
+
+
+def run_rejection_case(ctx, idx, rng):
+    """Every rejection of least_squares, _construct_prior_obs and Corr.fit is provoked from a valid problem by one minimal change (the
+    valid twin is fitted and judged first, so the row differs from an accepted input in exactly that respect)."""
+    pe = PE
+    rows = ['mixed-dict-and-list', 'y-keys-differ', 'func-keys-differ', 'x-three-dimensional', 'y-without-error', 'func-not-callable', 'x-y-length-differ',
+            'combined-function-wrong-shape', 'prior-list-wrong-length', 'prior-key-not-int', 'prior-position-out-of-range', 'priors-wrong-type',
+            'prior-without-error', 'initial-guess-wrong-length', 'supplied-matrix-wrong-size', 'supplied-matrix-not-square', 'supplied-matrix-keys',
+            'supplied-matrix-not-lower-triangular', 'prior-entry-not-obs-or-str', 'singular-hessian', 'function-with-wrong-signature', 'Corr.fit-matrix-correlator',
+            'Corr.fit-range-not-list', 'Corr.fit-range-three-entries']
+    row = rows[idx % len(rows)]
+    o = hard_options(idx // len(rows), rng, weights='diag', priors='none', method='Levenberg-Marquardt', num_grad=False, nsets=2, dim=1)
+    o['k'] = int(rng.integers(2, 4))
+    if row.startswith('supplied'):
+        o['weights'] = 'supplied'
+    if row in ('prior-list-wrong-length', 'prior-entry-not-obs-or-str'):
+        o['priors'] = 'list'
+    if row in ('prior-key-not-int', 'prior-position-out-of-range', 'prior-without-error'):
+        o['priors'] = 'dict-obs'
+    prob = make_problem(ctx, rng, o)
+    ys = prob['ys']
+    dy = np.array([float(v.dvalue) for v in ys])
+    Lcanon = supplied_factor(rng, dy) if o['weights'] == 'supplied' else None
+    res, sol, info = fit_and_judge(ctx, prob, o, 'rejection:valid-twin', 'valid twin of ' + row, Lcanon=Lcanon)
+    if res is None:
+        return
+    x, y, f, pri, kw = build_call(prob, base_presentation(prob), o, Lcanon)
+    keys = sorted(x)
+    k0, k1 = keys[0], keys[1]
+    fit = lambda x_=x, y_=y, f_=f, pri_=pri, **over: pe.fits.least_squares(x_, y_, f_, priors=pri_, silent=True, **dict(kw, **over))
+    inputs = unique_inputs(prob)
+    E = expect_rejection
+    if row == 'mixed-dict-and-list':
+        E(ctx, row, (TypeError,), lambda: fit(x_=x[k0], y_=y, f_=f), inputs, 'All arguments have to be dictionaries')
+    elif row == 'y-keys-differ':
+        # equal number of keys, one differs only by a prefix trap
+        E(ctx, row, (ValueError,), lambda: fit(y_={k0: y[k0], k1 + '1': y[k1]}), inputs, 'x and y dictionaries do not contain the same keys')
+    elif row == 'func-keys-differ':
+        E(ctx, row, (ValueError,), lambda: fit(f_={k0: f[k0], k1.upper() + '_': f[k1]}), inputs, 'x and func dictionaries do not contain the same keys')
+    elif row == 'x-three-dimensional':
+        E(ctx, row, (ValueError,), lambda: fit(x_={q: np.asarray(x[q], dtype=float).reshape(1, 1, -1) for q in keys}), inputs, 'Unknown format for x values')
+    elif row == 'y-without-error':
+        v = ys[int(rng.integers(0, len(ys)))]
+        fresh = pe.Obs([v.deltas[n] + v.r_values[n] for n in v.names], list(v.names), idl=[v.idl[n] for n in v.names]) if not v.cov_names else None
+        if fresh is None:
+            raise Skip()
+        y2 = {q: [fresh if w is v else w for w in y[q]] for q in keys}
+        E(ctx, row, (Exception,), lambda: fit(y_=y2), inputs, 'No y errors available')
+    elif row == 'func-not-callable':
+        E(ctx, row, (TypeError,), lambda: fit(f_={k0: f[k0], k1: 'not a function'}), inputs, 'is not a function')
+    elif row == 'x-y-length-differ':
+        E(ctx, row, (ValueError,), lambda: fit(x_={k0: list(x[k0]) + [9.9], k1: x[k1]}), inputs, 'do not have the same length')
+    elif row == 'combined-function-wrong-shape':
+        const = lambda p, xx: p[0]                       # a constant without '+ 0 * x': documented hint in the message
+        E(ctx, row, (ValueError,), lambda: fit(f_={k0: f[k0], k1: const}), inputs, 'returns the wrong shape')
+    elif row == 'prior-list-wrong-length':
+        E(ctx, row, (ValueError,), lambda: fit(pri_=list(pri)[:-1]), inputs, "'priors' does not have the correct length")
+    elif row == 'prior-key-not-int':
+        m0 = list(pri)[0]
+        E(ctx, row, (TypeError,), lambda: fit(pri_={(str(m) if m == m0 else m): v for m, v in pri.items()}), inputs, 'Prior position needs to be an integer')
+    elif row == 'prior-position-out-of-range':
+        m0 = list(pri)[0]
+        E(ctx, row, (ValueError,), lambda: fit(pri_={(prob['k'] if m == m0 else m): v for m, v in pri.items()}), inputs, 'Prior position out of range')
+    elif row == 'priors-wrong-type':
+        E(ctx, row, (TypeError,), lambda: fit(pri_=tuple('1.0(1)' for _ in range(prob['k']))), inputs, 'Unkown type for `priors`')
+    elif row == 'prior-without-error':
+        m0 = list(pri)[0]
+        fresh = pe.Obs([pri[m0].deltas[n] + pri[m0].r_values[n] for n in pri[m0].names], list(pri[m0].names))
+        E(ctx, row, (Exception,), lambda: fit(pri_=dict(pri, **{})) if False else fit(pri_={m: (fresh if m == m0 else v) for m, v in pri.items()}), inputs, 'No prior errors available')
+    elif row == 'initial-guess-wrong-length':
+        E(ctx, row, (ValueError,), lambda: fit(initial_guess=[0.5] * (prob['k'] + int(rng.choice([-1, 1])))), inputs, 'Initial guess does not have the correct length')
+    elif row == 'supplied-matrix-wrong-size':
+        L, kl = kw['inv_chol_cov_matrix']
+        E(ctx, row, (TypeError,), lambda: fit(inv_chol_cov_matrix=[L[:-1, :-1], kl]), inputs, 'number of columns of the inverse covariance matrix')
+    elif row == 'supplied-matrix-not-square':
+        L, kl = kw['inv_chol_cov_matrix']
+        E(ctx, row, (TypeError,), lambda: fit(inv_chol_cov_matrix=[L[:, :-1], kl]), inputs, 'same number of rows as columns')
+    elif row == 'supplied-matrix-keys':
+        L, kl = kw['inv_chol_cov_matrix']
+        E(ctx, row, (ValueError,), lambda: fit(inv_chol_cov_matrix=[L, list(kl)[::-1]]), inputs, 'keys of inverse covariance matrix')
+    elif row == 'supplied-matrix-not-lower-triangular':
+        L, kl = kw['inv_chol_cov_matrix']
+        E(ctx, row, (ValueError,), lambda: fit(inv_chol_cov_matrix=[L.T.copy() if idx % 2 else -L, kl]), inputs, 'has to be a lower triangular matrix')
+    elif row == 'prior-entry-not-obs-or-str':
+        bad = list(pri)
+        bad[int(rng.integers(0, len(bad)))] = float(prob['ptrue'][0])
+        E(ctx, row, (TypeError,), lambda: fit(pri_=bad), inputs, "Prior entries need to be 'Obs' or 'str'")
+    elif row == 'function-with-wrong-signature':
+        # a function that cannot be called as func(p, x) for any number of parameters (here: a third mandatory argument)
+        bad = lambda p, xx, extra: p[0] + p[1] * xx
+        E(ctx, row, (RuntimeError,), lambda: fit(f_={k0: f[k0], k1: bad}), inputs, 'is not valid')
+    elif row == 'singular-hessian':
+        # a parameter that enters nowhere and has no prior: the Hessian is exactly singular and the library must refuse
+        kk = prob['k']
+        f2 = {q: (lambda p, xx, g=f[q]: g(p, xx) + 0 * p[kk]) for q in keys}
+        E(ctx, row, (Exception,), lambda: fit(f_=f2), inputs, 'Cannot invert hessian matrix')
+    else:
+        T = 6
+        n = 40
+        cont = [pe.Obs([1.0 + 0.2 * t + 0.05 * np.sqrt(n) * rng.normal(size=n)], ['ens'], idl=[range(1, n + 1)]) for t in range(T)]
+        corr = pe.Corr(cont)
+        corr.gamma_method()
+        g = lambda p, xx: p[0] + p[1] * xx
+        if row == 'Corr.fit-matrix-correlator':
+            mats = [np.array([[cont[t], cont[t]], [cont[t], cont[t]]]) for t in range(T)]
+            E(ctx, row, (ValueError,), lambda: pe.Corr(mats).fit(g, [1, 4], silent=True), cont, 'must be projected before fitting')
+        elif row == 'Corr.fit-range-not-list':
+            E(ctx, row, (TypeError,), lambda: corr.fit(g, (1, 4), silent=True), cont, 'fitrange has to be a list')
+        else:
+            E(ctx, row, (ValueError,), lambda: corr.fit(g, [1, 4, 5], silent=True), cont, 'exactly two elements')
+    ctx.cell('rejection', row)
+
+
+def run_degenerate_case(ctx, idx, rng):
+    """Checklist items 16-18: central values exactly 0.0 (first data point, a prior), falsy but valid options, members the library's own ==
+    cannot tell apart (copies, copies shifted by 1e-12) next to the original, equal central values on different data."""
+    pe = PE
+    variant = ['first-point-exactly-zero', 'all-points-exactly-zero-mean', 'prior-exactly-zero', 'falsy-options', 'empty-prior-dict', 'equal-copies',
+               'copy-shifted-1e-12', 'prior-is-copy-of-data-point', 'equal-central-values'][idx % 9]
+    o = hard_options(idx // 9, rng, weights=WEIGHTS[(idx // 9) % 3] if variant not in ('equal-copies', 'copy-shifted-1e-12', 'prior-is-copy-of-data-point') else ['diag', 'supplied'][(idx // 9) % 2],
+                     method=METHODS[(idx // 27) % 4])
+    o['mode'] = 'shared' if o['weights'] == 'estimated' else str(rng.choice(['indep', 'shared']))
+    if variant in ('prior-exactly-zero', 'prior-is-copy-of-data-point'):
+        o['k'] = int(rng.integers(2, 5))
+    prob = make_problem(ctx, rng, o)
+    sets, k = prob['sets'], prob['k']
+    extra = {}
+
+    def reanalysed(new, like):
+        gm(new, **GM[id(like)][1])
+        return new
+
+    def copy_of(v, shift=0.0, tag=None):
+        names = [n for n in v.names if n not in v.cov_names]
+        c = pe.Obs([v.deltas[n] + v.r_values[n] + shift for n in names], names, idl=[v.idl[n] for n in names])
+        c.tag = tag
+        return reanalysed(c, v)
+    spec = []
+    if variant == 'first-point-exactly-zero':
+        v = sets[0]['y'][0]
+        sets[0]['y'] = [reanalysed(v - v.value, v)] + list(sets[0]['y'][1:])
+    elif variant == 'all-points-exactly-zero-mean':
+        for s_ in sets:
+            s_['y'] = [reanalysed(v - v.value, v) for v in s_['y']]
+    elif variant == 'prior-exactly-zero':
+        m = int(rng.integers(0, k))
+        if rng.random() < 0.5:
+            spec.append((m, 'str', str(rng.choice(['0.0(3)', '0(1)', '0.00(25)', '-0.0(0.4)']))))
+        else:
+            P = pe.Obs([0.3 * np.sqrt(40) * rng.normal(size=40)], ['prZero'])
+            P = P - P.value
+            gm(P, S=1.0)
+            spec.append((m, 'obs', P))
+    elif variant == 'falsy-options':
+        extra = dict(correlated_fit=(o['weights'] != 'diag'), num_grad=False, expected_chisquare=False, resplot=False, qqplot=False, silent=0,
+                     initial_guess=[0.0] * k)
+        o['num_grad'] = False
+    elif variant in ('equal-copies', 'copy-shifted-1e-12'):
+        if any(v.cov_names for v in prob['ys']) or len(prob['ys']) < 3:
+            raise Skip()
+        d = int(rng.integers(0, len(sets)))
+        if len(sets[d]['y']) < 2:
+            raise Skip()
+        i, j = [int(q) for q in rng.choice(len(sets[d]['y']), size=2, replace=False)]
+        sets[d]['y'] = list(sets[d]['y'])
+        src = sets[d]['y'][i]
+        sets[d]['y'][j] = copy_of(src, 1e-12 * abs(src.value) if variant == 'copy-shifted-1e-12' else 0.0, tag='copy')
+        if rng.random() < 0.5 and len(sets[d]['y']) >= 3:
+            l = [q for q in range(len(sets[d]['y'])) if q not in (i, j)][0]
+            sets[d]['y'][l] = src                                    # ... next to a repetition of the identical object
+    elif variant == 'prior-is-copy-of-data-point':
+        if any(v.cov_names for v in prob['ys']):
+            raise Skip()
+        v = prob['ys'][int(rng.integers(0, len(prob['ys'])))]
+        spec.append((int(rng.integers(0, k)), 'obs', copy_of(v, tag='prior copy')))
+    elif variant == 'equal-central-values':
+        c0 = float(prob['ys'][0].value)
+        for s_ in sets:
+            s_['y'] = [reanalysed(v - v.value + c0, v) for v in s_['y']]
+    resync(prob)
+    if spec:
+        set_priors(prob, spec)
+    dy = np.array([float(v.dvalue) for v in prob['ys']])
+    Lcanon = supplied_factor(rng, dy) if o['weights'] == 'supplied' else None
+    what = 'degenerate %s %s/%s' % (variant, o['method'][:2], o['weights'])
+    ctx.cell('degenerate', variant, o['weights'], o['method'][:2])
+    if variant == 'empty-prior-dict':
+        # an empty dictionary of priors constrains nothing: the fit without priors
+        sol = solve_reference(ctx, prob, o, Lcanon)
+        x, y, f, pri, kw = build_call(prob, base_presentation(prob), o, Lcanon)
+        try:
+            res = guarded_fit(ctx, prob, (x, y, f, {}, kw), o['method'], 'priors:empty-dict')
+        except ValueError as e:
+            ctx.ev()
+            ctx.violation('priors:empty-dict:max-of-empty-sequence' if 'max()' in str(e) and 'empty' in str(e) else 'priors:empty-dict:ValueError', {'message': str(e)[:200]})
+            ctx.count('degenerate_cases_judged')
+            return
+        if res is not None:
+            judge(ctx, prob, o, res, sol, 'priors:empty-dict', what)
+        ctx.count('degenerate_cases_judged')
+        return
+    res, sol, info = fit_and_judge(ctx, prob, o, 'degenerate:' + variant, what, Lcanon=Lcanon, extra_kw=extra)
+    if res is not None:
+        if variant in ('first-point-exactly-zero', 'all-points-exactly-zero-mean'):
+            ctx.require(all(np.isfinite(float(v.value)) and all(np.all(np.isfinite(d_)) for d_ in v.deltas.values()) and
+                            all(np.isfinite(float(r_)) for r_ in v.r_values.values()) for v in res.fit_parameters), 'degenerate:zero-central-value:non-finite-result', what)
+        ctx.count('degenerate_cases_judged')
+        if info and info['nontriv'] and k >= 2:
+            ctx.nontrivial.add(digest([obs_digest(v) for v in prob['ys']], variant, repr(sorted(o.items(), key=str))))
+    ctx.sample({'degenerate': variant, 'points': len(prob['ys']), 'first_value': float(prob['ys'][0].value), 'priors': [(m, kind) for m, kind, _ in spec]})
+
+
+
 def run_case(ctx, kind, idx, rng):
     GM.clear()
     runner = {'fit': run_fit_case, 'corrfit': run_corr_case, 'alias': run_alias_case, 'history': run_history_case, 'scale': run_scale_case,
               'representation': run_flags_case, 'chain': run_chain_case, 'boundary': run_boundary_case, 'expchisq': run_expchisq_case,
-              'spectator': run_spectator_case}[kind]
+              'spectator': run_spectator_case, 'interface': run_interface_case, 'rejection': run_rejection_case, 'degenerate': run_degenerate_case}[kind]
     runner(ctx, idx, rng)
